@@ -387,6 +387,10 @@ pub struct VammCfg {
     /// engine exists; nobody holds the engine role of such a vAMM until its owner configures one
     #[serde(default)]
     pub unwired: bool,
+    /// (not live only) after deployment the vAMM is opened, pointed at a SECOND insurance fund (same code, same
+    /// engine) and listed there; the engine's own insurance fund does not list it
+    #[serde(default)]
+    pub foreign_fund: bool,
 }
 
 #[derive(Serialize, Deserialize, Clone, Debug)]
@@ -593,6 +597,8 @@ pub struct World {
     pub ctl: Rc<FaultCtl>,
     pub engine: Addr,
     pub insurance: Addr,
+    /// a second insurance fund of the same engine, present when a market names it (`VammCfg::foreign_fund`)
+    pub insurance2: Option<Addr>,
     pub fee_pool: Addr,
     pub feed: Addr,
     pub vamms: Vec<Addr>,
@@ -826,6 +832,33 @@ impl World {
             vamms.push(addr);
             b0.push(vc.base_reserve);
         }
+        // a second insurance fund (instantiated last, so that no other address moves) for the markets that name it
+        let mut insurance2: Option<Addr> = None;
+        if cfg.vamms.iter().any(|vc| vc.foreign_fund && !vc.live && !vc.unwired) {
+            let foreign = app
+                .instantiate_contract(ins_id, owner.clone(), &ins::InstantiateMsg { engine: engine.to_string() }, &[], "insurance_fund_2", None)
+                .unwrap();
+            for (i, vc) in cfg.vamms.iter().enumerate() {
+                if vc.foreign_fund && !vc.live && !vc.unwired {
+                    let upd = vm::ExecuteMsg::UpdateConfig {
+                        base_asset_holding_cap: None,
+                        open_interest_notional_cap: None,
+                        toll_ratio: None,
+                        spread_ratio: None,
+                        fluctuation_limit_ratio: None,
+                        margin_engine: None,
+                        insurance_fund: Some(foreign.to_string()),
+                        pricefeed: None,
+                        spot_price_twap_interval: None,
+                    };
+                    app.execute_contract(owner.clone(), vamms[i].clone(), &upd, &[]).unwrap();
+                    app.execute_contract(owner.clone(), vamms[i].clone(), &vm::ExecuteMsg::SetOpen { open: true }, &[]).unwrap();
+                    // (refused when the vAMM's decimals differ from the engine's)
+                    let _ = app.execute_contract(owner.clone(), foreign.clone(), &ins::ExecuteMsg::AddVamm { vamm: vamms[i].to_string() }, &[]);
+                }
+            }
+            insurance2 = Some(foreign);
+        }
 
         let mut w = World {
             app,
@@ -833,6 +866,7 @@ impl World {
             ctl,
             engine,
             insurance,
+            insurance2,
             fee_pool,
             feed,
             vamms,
